@@ -39,6 +39,7 @@ func (fsrv *FileServer) directoryListing(ctx context.Context, fileSystem fs.FS, 
 	filesToHide := fsrv.transformHidePaths(repl)
 
 	name, _ := url.PathUnescape(urlPath)
+	dirURLPath := name
 
 	tplCtx := &browseTemplateContext{
 		Name:         path.Base(name),
@@ -54,7 +55,11 @@ func (fsrv *FileServer) directoryListing(ctx context.Context, fileSystem fs.FS, 
 
 		name := entry.Name()
 
-		if fileHidden(name, filesToHide) {
+		// a hide rule can name a path (it contains a separator), so besides the bare
+		// name also check the entry's path on the file system, which is what decides
+		// that the entry cannot be requested either
+		if fileHidden(name, filesToHide) ||
+			fileHidden(caddyhttp.SanitizedPathJoin(root, path.Join(dirURLPath, name)), filesToHide) {
 			continue
 		}
 
